@@ -212,7 +212,11 @@ func dumpMain(repo, pat string) int {
 		for i, rs := range mod.Rets[f] {
 			fmt.Printf("    ret%d aliases %v\n", i, rs.sorted())
 		}
-		paths, complete := pathsOf(p, f, nil, execOpts{MaxVisits: 1, Pure: mod.PureCall, InlineCallee: inlineNewHelpers})
+		visits := 1
+		if v, err := strconv.Atoi(os.Getenv("DDV_DUMP_VISITS")); err == nil && v > 0 {
+			visits = v
+		}
+		paths, complete := pathsOf(p, f, nil, execOpts{MaxVisits: visits, Pure: mod.PureCall, InlineCallee: inlineNewHelpers})
 		fmt.Printf("    %d paths complete=%v\n", len(paths), complete)
 		for i, pa := range paths {
 			if i > 40 {
